@@ -23,6 +23,7 @@ MUTS.append(("S7 seeded C08-e: AsyncIORuntime.wrap_callable goes through self.su
 MUTS.append(("R1 revert of 60b475c (list item completion failure waits for started items)", None, "-R:/verif/fixes/C09-01-list-item-failure-waits-for-started-items.patch", None, ["C09", "C08"]))
 MUTS.append(("S8 seeded C08-f: argument_values cached by AST node only", None, "/verif/seeded/C08-f/patch.diff", None, ["C08"]))
 MUTS.append(("S9 seeded C09-f: execute_fields_serially loop testing unwrap_value(value) is value", None, "/verif/seeded/C09-f/patch.diff", None, ["C09", "C08"]))
+MUTS.append(("R2 revert of 0b6c9fe (serial execution without recursion)", None, "-R:/verif/fixes/C09-02-serial-fields-without-recursion.patch", None, ["C09"]))
 MUTS.append(("S2 seeded C09-a: execute() dispatches on root_type identity", None, "/verif/seeded/C09-a/patch.diff", None, ["C09"]))
 only = sys.argv[1:]
 env = dict(os.environ, PYGQL_REPO=WT)
